@@ -398,6 +398,8 @@ def run_job(job: dict, scratch: str) -> dict:
         res['oracle'] = oracle_all(raw)
         if job.get('real_install'):
             res['oracle']['real_install'] = oracle_real_install(raw, jd)
+        if job.get('real_tests'):
+            res['oracle']['real_tests'] = oracle_real_tests(raw, jd)
         res['lean'] = lean_requests(raw)
     except Exception as ex:  # extraction must not die silently
         import traceback
@@ -1194,6 +1196,85 @@ def transformations(raw: dict) -> T.Dict[str, int]:
     return n
 
 
+DUMPER = """#!/usr/bin/env python3
+import json, os, sys
+with open(os.environ['C15_DUMP'], 'a') as f:
+    f.write(json.dumps({'argv': sys.argv, 'cwd': os.getcwd(), 'env': dict(os.environ)}) + '\\n')
+"""
+
+
+def oracle_real_tests(raw: dict, jd: str) -> dict:
+    """witness for cmd / env / workdir that shares nothing with the introspection code: every test program inside the scratch
+    tree is replaced by a dumper, a real `meson test --no-rebuild` (and `--benchmark`) runs, and what each process received is
+    compared with the entry of intro-tests.json / intro-benchmarks.json"""
+    viol = []
+    skipped = 0
+    runs = 0
+    for which, extra in (('tests', []), ('benchmarks', ['--benchmark'])):
+        entries = raw[which]
+        if not entries:
+            continue
+        usable = []
+        for t in entries:
+            prog = t['cmd'][0]
+            if prog.startswith(raw['bld'] + os.sep) or prog.startswith(raw['src'] + os.sep):
+                os.makedirs(os.path.dirname(prog), exist_ok=True)
+                if os.path.islink(prog):
+                    os.unlink(prog)
+                with open(prog, 'w') as fh:
+                    fh.write(DUMPER)
+                os.chmod(prog, 0o755)
+                usable.append(t)
+            else:
+                skipped += 1      # a program of the machine (python3, sh): cannot be replaced
+            if t['workdir']:
+                os.makedirs(t['workdir'], exist_ok=True)
+        dump = os.path.join(jd, f'dump-{which}.jsonl')
+        e = dict(os.environ)
+        e['PYTHONPATH'] = common.REPO
+        e['PYTHONDONTWRITEBYTECODE'] = '1'
+        e['C15_DUMP'] = dump
+        for k in ('LD_LIBRARY_PATH', 'MESON_TESTTHREADS'):
+            e.pop(k, None)
+        p = subprocess.run([sys.executable, os.path.join(common.REPO, 'meson.py'), 'test', '-C', raw['bld'], '--no-rebuild', '--num-processes', '1',
+                            '--timeout-multiplier', '0'] + extra, env=e, stdout=subprocess.PIPE, stderr=subprocess.STDOUT, timeout=600)
+        runs += 1
+        recs = []
+        if os.path.exists(dump):
+            with open(dump) as fh:
+                recs = [json.loads(l) for l in fh if l.strip()]
+        used = [False] * len(recs)
+        for t in usable:
+            want_cwd = os.path.realpath(t['workdir'] or raw['bld'])
+
+            def fits(r, strict_env=True):
+                argv = r['argv']
+                if t['protocol'] == 'gtest' and argv and argv[-1].startswith('--gtest_output='):
+                    argv = argv[:-1]
+                if argv != t['cmd'] or os.path.realpath(r['cwd']) != want_cwd:
+                    return False
+                return all(r['env'].get(k) == v for k, v in t['env'].items())
+            for i, r in enumerate(recs):
+                if not used[i] and fits(r):
+                    used[i] = True
+                    break
+            else:
+                near = [r for r in recs if r['argv'][:1] == t['cmd'][:1]]
+                what = 'no process was started with that program'
+                if near:
+                    r = near[0]
+                    got_env = {k: r['env'].get(k) for k in t['env']}
+                    what = f"a process got argv {r['argv']!r}, cwd {r['cwd']!r}, env {got_env!r}"
+                viol.append((f'real-test:{which}:entry-does-not-describe-a-started-process', f"intro-{which}.json entry {t['name']!r} says cmd {t['cmd']!r}, "
+                             f"workdir {t['workdir']!r}, env {t['env']!r}; in a real `meson test` run {what}",
+                             {'entry': t, 'meson_test_output_tail': p.stdout.decode('utf-8', 'replace')[-400:]}))
+        extra_recs = [r for i, r in enumerate(recs) if not used[i]]
+        if extra_recs and len(recs) != len(usable):
+            viol.append((f'real-test:{which}:process-started-that-no-entry-describes', f"a real `meson test` run started {extra_recs[0]['argv']!r} (cwd {extra_recs[0]['cwd']!r}); "
+                         f"no entry of intro-{which}.json describes it", {'argv': extra_recs[0]['argv']}))
+    return {'answer': 'OK', 'violations': viol, 'runs': runs, 'skipped': skipped}
+
+
 def oracle_options(raw: dict) -> dict:
     rows: T.Dict[str, T.List[str]] = {}
     for r in raw['buildoptions']:
@@ -1247,6 +1328,60 @@ def oracle_files(raw: dict) -> dict:
     return {'answer': f"OK|{'1' if listed == opened else '0'}", 'violations': viol}
 
 
+def resolved_words(raw: dict, t: dict) -> T.List[str]:
+    """the words of a test's command line as absolute paths (relative words are relative to the workdir, else the build dir)"""
+    base = t['workdir'] or raw['bld']
+    return [os.path.normpath(os.path.join(base, w)) for w in t['cmd']]
+
+
+def prereq_inputs(stmts: T.List[dict], bld: str, which: str) -> T.Optional[T.List[str]]:
+    name = 'meson-test-prereq' if which == 'tests' else 'meson-benchmark-prereq'
+    for st in stmts:
+        if st['rule'] == 'phony' and name in st['outs']:
+            return [absn(bld, i) for i in st['ins']]
+    return None
+
+
+def oracle_testdeps(raw: dict, which: str) -> dict:
+    """witness for `depends` that does not come from the test serialisation: build.ninja's prerequisite statement of
+    `meson test`, and the built files that appear on the command lines"""
+    bld = raw['bld']
+    tests = raw[which]
+    viol = []
+    first = {t['id']: (t['filename'][0] if t['filename'] else None) for t in raw['targets']}
+    owner = {}
+    for t in raw['targets']:
+        if TKIND.get(t['type'], 'o') != 'p':
+            for f in t['filename']:
+                owner.setdefault(f, []).append(t['id'])
+    pre = prereq_inputs(read_build_statements(raw['ninja']), bld, which)
+    listed = {first[d] for t in tests for d in t['depends'] if first.get(d)}
+    ok_pre = pre is not None and listed == set(pre)
+    if pre is None:
+        viol.append((f'{which}:no-prereq-statement', f'build.ninja has no meson-{which[:-1]}-prereq statement', {}))
+    else:
+        for f in sorted(set(pre) - listed):
+            viol.append((f'{which}:prerequisite-in-no-depends', f"build.ninja builds {os.path.relpath(f, bld)!r} before `meson test` ({'meson-test-prereq' if which == 'tests' else 'meson-benchmark-prereq'}), "
+                         f"but no entry of intro-{which}.json has its target in `depends`; entries using it: "
+                         f"{[t['name'] for t in tests if any(w in owner and f in [first[i] for i in owner[w]] for w in resolved_words(raw, t))]}",
+                         {'prerequisite': f, 'depends_of_all': sorted({d for t in tests for d in t['depends']})}))
+        for f in sorted(listed - set(pre)):
+            viol.append((f'{which}:depends-not-a-prerequisite', f"intro-{which}.json lists the target of {os.path.relpath(f, bld)!r} in `depends`, but build.ninja does not build it "
+                         f"before `meson test`", {'file': f, 'prereq': pre}))
+    bits = []
+    for t in tests:
+        ok = True
+        for w in resolved_words(raw, t):
+            for tid in owner.get(w, []):
+                if tid not in t['depends']:
+                    ok = False
+                    viol.append((f'{which}:built-file-on-command-line-not-in-depends', f"{which[:-1]} {t['name']!r} runs {t['cmd']!r}: {os.path.relpath(w, bld)!r} is made by target "
+                                 f"{tid!r}, which is not in its `depends` {t['depends']!r}", {'test': t, 'file': w, 'target': tid}))
+        bits.append('1' if ok else '0')
+    agree = ok_pre and all(b == '1' for b in bits)
+    return {'answer': f"OK|{'1' if agree else '0'}|{'1' if ok_pre else '0'}|{''.join(bits)}", 'violations': viol}
+
+
 def regen_inputs(raw: dict) -> T.Optional[T.List[str]]:
     """the inputs of the statement that regenerates build.ninja, without meson's own coredata.dat"""
     for st in read_build_statements(raw['ninja']):
@@ -1278,7 +1413,8 @@ def oracle_regen(raw: dict) -> dict:
 
 def oracle_all(raw: dict) -> dict:
     return {'targets': oracle_targets(raw), 'tests': oracle_tests(raw, 'tests'), 'benchmarks': oracle_tests(raw, 'benchmarks'),
-            'install': oracle_install(raw), 'options': oracle_options(raw), 'files': oracle_files(raw), 'regen': oracle_regen(raw)}
+            'install': oracle_install(raw), 'options': oracle_options(raw), 'files': oracle_files(raw), 'regen': oracle_regen(raw),
+            'testdeps': oracle_testdeps(raw, 'tests'), 'benchdeps': oracle_testdeps(raw, 'benchmarks')}
 
 
 # ------------------------------------------------------------------------------------------------ jobs
@@ -1322,7 +1458,8 @@ def make_jobs(ctx: Ctx) -> T.List[dict]:
         files, empt = corpus_files(name)
         for label, args, machine in variants:
             jobs.append({'id': f'corpus-{name}-{label}', 'kind': 'corpus', 'name': name, 'label': label, 'args': args, 'machine': machine,
-                         'files': files, 'emptydirs': empt, 'real_install': name in ('inst', 'instshapes')})
+                         'files': files, 'emptydirs': empt, 'real_install': name in ('inst', 'instshapes'),
+                         'real_tests': name in ('tests', 'mixed')})
     n_gen = ctx.scale(24, 130)
     matrix = projgen.option_matrix()
     scratch = common.scratch_dir('mverif-c15-gen-')
@@ -1350,7 +1487,7 @@ def make_jobs(ctx: Ctx) -> T.List[dict]:
 
 # ------------------------------------------------------------------------------------------------ driving
 
-PARTS = ['targets', 'tests', 'benchmarks', 'install', 'options', 'files', 'regen']
+PARTS = ['targets', 'tests', 'benchmarks', 'install', 'options', 'files', 'regen', 'testdeps', 'benchdeps']
 
 
 def failing_input(res: dict) -> dict:
@@ -1380,7 +1517,16 @@ def evaluate(ctx: Ctx, results: T.List[dict], jobs_by_id: T.Dict[str, dict]) -> 
         lines.append('targets ' + req['targets'] + '|' + edges_field(raw['bld'], edges, read_rule_commands(raw['ninja'])))
         index.append((n, 'targets'))
         for part in PARTS[1:]:
-            if part == 'regen':
+            if part in ('testdeps', 'benchdeps'):
+                which = 'tests' if part == 'testdeps' else 'benchmarks'
+                pname = 'meson-test-prereq' if which == 'tests' else 'meson-benchmark-prereq'
+                pre = [absn(raw['bld'], i) for e in edges if e['rule'] == 'phony' and pname in e['outs'] for i in e['ins']]
+                if not any(e['rule'] == 'phony' and pname in e['outs'] for e in edges):
+                    pre = ['<no prereq statement>']
+                uses = '/'.join(L(t['depends']) + ';' + L(resolved_words(raw, t)) for t in raw[which])
+                tfs = '/'.join(S(t['id']) + ';' + L(t['filename']) for t in raw['targets'] if TKIND.get(t['type'], 'o') != 'p')
+                lines.append(f'testdeps {uses}|{tfs}|{L(pre)}')
+            elif part == 'regen':
                 coredata = os.path.join(raw['bld'], 'meson-private', 'coredata.dat')
                 watched = [absn(raw['bld'], i) for e in edges if e['rule'] == 'REGENERATE_BUILD' and 'build.ninja' in e['outs']
                            for i in e['ins'] if absn(raw['bld'], i) != coredata]
@@ -1430,7 +1576,10 @@ def evaluate(ctx: Ctx, results: T.List[dict], jobs_by_id: T.Dict[str, dict]) -> 
             ctx.tag('install_emptydir (not part of the property, not listed by intro-install_plan.json)')
         if 'real_install' in r['oracle']:
             ctx.tag('real `meson install --destdir` runs', len(r['oracle']['real_install']['runs']))
-        for part in PARTS + (['real_install'] if 'real_install' in r['oracle'] else []):
+        if 'real_tests' in r['oracle']:
+            ctx.tag('real `meson test --no-rebuild` runs with dumper programs', r['oracle']['real_tests']['runs'])
+            ctx.tag('tests whose program is a machine program (not replaceable by the dumper)', r['oracle']['real_tests']['skipped'])
+        for part in PARTS + [x for x in ('real_install', 'real_tests') if x in r['oracle']]:
             for key, what, detail in r['oracle'][part]['violations']:
                 case = dict(failing_input(r))
                 case['detail'] = detail
@@ -1487,6 +1636,55 @@ def getenv_correspondence(ctx: Ctx) -> None:
     ctx.tag('getenv-sequences', n)
 
 
+# every field of the introspection files and the witness it is compared with; `independent` = does not share the producing function
+WITNESSES = {
+    'targets.filename': ('independent', 'outputs of the statements of build.ninja (Lean manifest parser / Python reader)'),
+    'targets.target_sources.sources/generated_sources': ('independent', 'explicit inputs of the compile statements of build.ninja'),
+    'targets.target_sources.language/compiler/parameters': ('independent', 'rule name, rule command and ARGS of the compile statements'),
+    'tests.cmd': ('independent', 'argv received by dumper programs in a real `meson test --no-rebuild` run (corpus tests, mixed); same-source: meson_test_setup.dat'),
+    'tests.env': ('independent', 'environment received by the dumper programs; same-source: get_env of the pickled operations'),
+    'tests.workdir': ('independent', 'cwd of the dumper programs; same-source: meson_test_setup.dat'),
+    'tests.depends': ('independent', 'inputs of `build meson-test-prereq / meson-benchmark-prereq: phony` in build.ninja; every built file on the command '
+                                     'line belongs to a target in depends; same-source: meson_test_setup.dat'),
+    'tests.suite/is_parallel/timeout/priority/protocol/extra_paths': ('same-source only', 'meson_test_setup.dat (what `meson test` unpickles)'),
+    'buildoptions.value': ('independent', 'message(get_option()) printed by the project itself'),
+    'install_plan.destination/tag/subproject': ('independent', 'files created by real `meson install --destdir [--tags|--skip-subprojects]` (corpus inst, instshapes); '
+                                                               'same-source: install.dat'),
+    'install_plan.exclude_*/install_rpath': ('same-source only', 'install.dat'),
+    'installed': ('independent', 'files created by the real install; same-source: install.dat'),
+    'buildsystem_files': ('independent', 'audit log of opened files; REGENERATE_BUILD inputs of build.ninja'),
+}
+
+# kinds of objects a test can take (read from the live annotations) -> the corpus case that uses it
+TEST_OBJECT_CASES = {
+    ('exe', 'Executable'): 'tests: plain', ('exe', 'CustomTarget'): 'tests: kind-exe-customtarget',
+    ('exe', 'CustomTargetIndex'): 'tests: kind-exe-customtarget-index', ('exe', 'File'): 'tests: kind-exe-file',
+    ('exe', 'Program'): 'tests: script (ExternalProgram), kind-exe-override-of-executable / -of-script (LocalProgram, overrides)',
+    ('exe', 'Jar'): None,     # no Java here
+    ('args', 'str'): 'tests: with-args', ('args', 'File'): 'tests: with-args, kind-arg-configure-file (built File)',
+    ('args', 'BuildTarget'): 'tests: with-args (executable), kind-arg-libraries (static, shared)', ('args', 'CustomTarget'): 'tests: with-args',
+    ('args', 'CustomTargetIndex'): 'tests: script-data, kind-arg-index-only', ('args', 'Program'): 'tests: kind-arg-override',
+    ('depends', 'BuildTarget'): 'tests: depends', ('depends', 'CustomTarget'): 'tests: depends', ('depends', 'CustomTargetIndex'): 'tests: kind-depends-index',
+    ('depends', 'Program'): 'tests: kind-depends-program (override of an executable)',
+}
+
+
+def test_object_kinds() -> T.Set[T.Tuple[str, str]]:
+    """(position, class name) for everything test()/benchmark() accepts, from the live type tables"""
+    from mesonbuild.interpreter import type_checking as tc
+    from mesonbuild.interpreter.interpreter import Interpreter
+    kinds: T.Set[T.Tuple[str, str]] = set()
+    for kw in tc.TEST_KWS:
+        if kw.name in ('args', 'depends'):
+            types = kw.types.contains if hasattr(kw.types, 'contains') else kw.types
+            for ty in (types if isinstance(types, tuple) else (types,)):
+                kinds.add((kw.name, ty.__name__))
+    ann = str(Interpreter.make_test.__annotations__.get('args', ''))
+    for name in re.findall(r'(?:build|mesonlib)\.(\w+)|\b(Program)\b', ann):
+        kinds.add(('exe', name[0] or name[1]))
+    return kinds
+
+
 def run(ctx: Ctx) -> None:
     ctx.rule = ('one case per (corpus project | projgen seed, option arguments, machine files); every target, test, benchmark, install record '
                 'and observed option of a case is one evaluation')
@@ -1499,6 +1697,17 @@ def run(ctx: Ctx) -> None:
         'option values without quotes, backslashes or newlines (message() formatting is then unambiguous)',
         'destinations are compared modulo repeated and trailing slashes',
     ]
+    ctx.extra['witnesses'] = {k: f'{v[0]}: {v[1]}' for k, v in WITNESSES.items()}
+    try:
+        kinds = test_object_kinds()
+        ctx.extra['test_object_kinds'] = {f'{a}:{b}': TEST_OBJECT_CASES.get((a, b)) or 'NOT COVERED' for a, b in sorted(kinds)}
+        for k in sorted(kinds):
+            if k not in TEST_OBJECT_CASES:
+                ctx.obligation_failed('test-object-kinds', f'test()/benchmark() accept {k[1]} as {k[0]}; no corpus case uses that kind')
+        if len(kinds) < 8:
+            ctx.obligation_failed('test-object-kinds', f'could not read the accepted kinds from the type tables: {sorted(kinds)}')
+    except Exception as e:
+        ctx.obligation_failed('test-object-kinds', f'{type(e).__name__}: {e}')
     jobs = make_jobs(ctx)
     jobs_by_id = {j['id']: j for j in jobs}
     results = run_jobs(jobs)
